@@ -26,13 +26,15 @@ def _fail(**kw):
 
 # ---------------------------------------------------------------- reference: C++ narrow string literal -> bytes
 def utf8(cp):
+    """UTF-8 bytes of a code point, written with // and % only (CrossHair keeps these symbolic; it realises
+    the operand of a bitwise operator, which would enumerate code points one by one)"""
     if cp < 0x80:
         return [cp]
     if cp < 0x800:
-        return [0xC0 | (cp >> 6), 0x80 | (cp & 0x3F)]
+        return [0xC0 + cp // 64, 0x80 + cp % 64]
     if cp < 0x10000:
-        return [0xE0 | (cp >> 12), 0x80 | ((cp >> 6) & 0x3F), 0x80 | (cp & 0x3F)]
-    return [0xF0 | (cp >> 18), 0x80 | ((cp >> 12) & 0x3F), 0x80 | ((cp >> 6) & 0x3F), 0x80 | (cp & 0x3F)]
+        return [0xE0 + cp // 4096, 0x80 + (cp // 64) % 64, 0x80 + cp % 64]
+    return [0xF0 + cp // 262144, 0x80 + (cp // 4096) % 64, 0x80 + (cp // 64) % 64, 0x80 + cp % 64]
 
 
 def hexval(c):
@@ -140,7 +142,7 @@ def c17_escape_any(text: str) -> bool:
     return ok
 
 
-FOLLOW = "0123456789abcdefABCDEF\"\\?z" if THOROUGH else "07aF\"\\?z"
+FOLLOW = "0123456789abcdefABCDEF\"\\?z"
 
 
 def _cls_char(cls, x):
@@ -335,9 +337,9 @@ def conds(tier):
     t = (lambda x, y: x) if q else (lambda x, y: y)
     M = "harness.c17"
     return [
-        xh.Cond(M, "c17_escape_any", t(120, 1800), examples=["text='a\"b'", "text='\\\\n'", "text='é'", "text='\\x80'", "text='\\x07b'", "text='\\n'"],
-                bounds="all texts of length <= %d over all Unicode scalar values" % (2 if q else 3), needs_confirm=False),
-        xh.Cond(M, "c17_escape_class", t(300, 1800), examples=["cls=0, cp=7, nxt=2", "cls=2, cp=160, nxt=2", "cls=6, cp=128512, nxt=4", "cls=1, cp=92, nxt=5"],
+        xh.Cond(M, "c17_escape_any", t(200, 3000), examples=["text='a\"b'", "text='\\\\n'", "text='é'", "text='\\x80'", "text='\\x07b'", "text='\\n'"],
+                bounds="all texts of length <= %d over all Unicode scalar values" % (2 if q else 3)),
+        xh.Cond(M, "c17_escape_class", t(300, 1800), examples=["cls=0, cp=7, nxt=11", "cls=2, cp=160, nxt=10", "cls=6, cp=128512, nxt=22", "cls=1, cp=92, nxt=23"],
                 bounds="7 code-point classes x symbolic code point in the class x %d following characters (hex digits, quote, backslash, ?, other)" % len(FOLLOW)),
         xh.Cond(M, "c17_overloads", t(300, 1800), examples=["shape=0, q=0, sym='id'", "shape=4, q=1, sym='id'", "shape=9, q=0, sym='zz'"],
                 bounds="12 member-definition shapes x 12 queries x symbolic parameter name (len <= 3)"),
